@@ -12,6 +12,10 @@ embedding `some` (`someHom`), with which every model function commutes (`Lemmas/
                                  interpolator built from lane `j` alone.
 * `C08_spline_solve`           : lane `j` of the slopes `solve_for_k` computes for n-d data (shared
                                  `w`, shared diagonals) is `solve_for_k` of lane `j`.
+* `C08_periodic_lanes`, `C08_periodic_reject` : the Periodic boundary on n-d data — its equal-ends test is the one operation
+                                 that looks at all lanes at once: if it passes, it passes for every lane and lane `j` of the
+                                 slopes is the periodic solve of lane `j` alone; if some lane fails it, the build is a
+                                 `ValueError` whatever the other lanes hold.
 * `C08_spline_coeffs`, `C08_spline_eval` : the same for coefficient extraction and evaluation.
 * `C08_other_lanes`            : consequently two data sets that agree on lane `j` (whatever the
                                  other lanes hold) give identical lane-`j` results.
@@ -59,6 +63,41 @@ theorem C08_spline_solve (xs : List α) (ys : List (List α)) (y1 : List α) (b 
     (solveForK (V := List α) xs ys b).map (List.map (fun r => r[j]?)) =
       (solveForK (V := α) xs y1 b).map (List.map some) := by
   rw [← solveForK_nat _ (projHom j) xs ys b hper, ← solveForK_nat _ someHom xs y1 b hper1, h]
+
+/-- **C08_periodic_lanes**: Periodic boundary on n-d data.  The equal-ends test is the one operation that looks at all lanes at
+    once; when it passes for the rows it passes for every lane (`all2List_getElem?`), and lane `j` of the slopes is then the
+    periodic solve of lane `j` alone — again for arbitrary scalar operations. -/
+theorem C08_periodic_lanes (xs : List α) (ys : List (List α)) (y1 : List α) (j : Nat) (h : IsLane j ys y1)
+    (hall : ∀ e, getEnds xs ys = .ok e → Lanes.all2 Cmp.eq e.y0 e.yl1 = true) :
+    (solveForK (V := List α) xs ys .periodic).map (List.map (fun r => r[j]?)) =
+      (solveForK (V := α) xs y1 .periodic).map (List.map some) := by
+  refine C08_spline_solve xs ys y1 .periodic j h (fun _ => hall) (fun _ e1 he1 => ?_)
+  -- the lane's own ends are the projections of the rows' ends
+  have hn : getEnds xs (ys.map (fun r => r[j]?)) = getEnds xs (y1.map some) := by rw [h]
+  rw [getEnds_nat, getEnds_nat, he1] at hn
+  cases hge : getEnds xs ys with
+  | error err => rw [hge] at hn; simp [Except.map] at hn
+  | ok e =>
+    rw [hge] at hn
+    simp only [Except.map, Except.ok.injEq] at hn
+    have hp := (projHom (α := α) j).all2 Cmp.eq e.y0 e.yl1 (hall e hge)
+    have h0 : e.y0[j]? = some e1.y0 := by
+      have := congrArg Ends.y0 hn; simpa [Ends.mapY] using this
+    have hl : e.yl1[j]? = some e1.yl1 := by
+      have := congrArg Ends.yl1 hn; simpa [Ends.mapY] using this
+    rw [h0, hl] at hp
+    exact hp
+
+/-- … and when the rows' first and last values differ in some lane the n-d build is rejected with a `ValueError`
+    (for data long enough to have its end rows), whatever the other lanes hold. -/
+theorem C08_periodic_reject (xs : List α) (ys : List (List α)) (e : Ends α (List α))
+    (hlen : 3 ≤ ys.length ∧ xs.length = ys.length) (he : getEnds xs ys = .ok e)
+    (hbad : Lanes.all2 Cmp.eq e.y0 e.yl1 = false) :
+    solveForK (V := List α) xs ys .periodic = .error (.builder .valueError) := by
+  unfold solveForK
+  simp only [bind, Except.bind, he, InternalBoundary.specialize, hbad]
+  rw [if_neg (by simpa using hlen)]
+  rfl
 
 /-- **C08_spline_coeffs** -/
 theorem C08_spline_coeffs (xs : List α) (ys ks : List (List α)) (y1 k1 : List α) (j : Nat)
